@@ -42,10 +42,34 @@ func genVarLayers() {
 	}
 	// closures made by getRangeFunc(<dir>): "root" when applied to <receiver>.Dir, else "task"
 	closure := map[string]string{}
+	lazyDir, lazyExpand, lazyClosure := false, false, ""
 	if fd != nil {
 		ast.Inspect(fd, func(n ast.Node) bool {
 			as, ok := n.(*ast.AssignStmt)
 			if !ok || len(as.Lhs) != 1 || len(as.Rhs) != 1 {
+				return true
+			}
+			if fl, ok := as.Rhs[0].(*ast.FuncLit); ok {
+				// a closure that resolves the directory itself and then applies getRangeFunc(<dir>)(k, v):
+				// "task" when that directory comes from templating <task>.Dir, per call of the closure
+				inner := ""
+				ast.Inspect(fl.Body, func(m ast.Node) bool {
+					if ce, ok := m.(*ast.CallExpr); ok && src(ce.Fun) == "getRangeFunc" && len(ce.Args) == 1 {
+						inner = norm(src(ce.Args[0]))
+					}
+					return true
+				})
+				if inner != "" {
+					kind := "task"
+					if inner == "Compiler.Dir" {
+						kind = "root"
+					}
+					closure[src(as.Lhs[0])] = kind
+					body := src(fl.Body)
+					lazyDir = contains(body, "templater.Replace(") && contains(norm2(body, tyOf), "ast.Task.Dir")
+					lazyExpand = contains(body, "execext.ExpandLiteral(")
+					lazyClosure = src(as.Lhs[0])
+				}
 				return true
 			}
 			ce, ok := as.Rhs[0].(*ast.CallExpr)
@@ -90,7 +114,11 @@ func genVarLayers() {
 						marks = append(marks, "osEnviron")
 					}
 					if len(x.Lhs) == 1 && closure[src(x.Lhs[0])] == "task" && strings.Contains(s, "getRangeFunc(") {
-						marks = append(marks, "taskDirResolved")
+						if src(x.Lhs[0]) == lazyClosure {
+							marks = append(marks, "taskDirClosure") // the directory is resolved inside the closure, when a variable needs it
+						} else {
+							marks = append(marks, "taskDirResolved")
+						}
 					}
 				case *ast.IfStmt:
 					c := src(x.Cond)
@@ -105,6 +133,9 @@ func genVarLayers() {
 	}
 	l.pairList("order", order)
 	l.strList("marks", marks)
+	// the task directory of the `sh:` variables: templated from <task>.Dir each time the closure runs, and expanded (`~`) like compiledTask does
+	l.bool("taskDirPerVariable", lazyDir)
+	l.bool("taskDirExpandsLiteral", lazyExpand)
 
 	// compiledTask: new.Env.Merge(templater.ReplaceVars(X, cache), nil) in order
 	var merges []string
@@ -181,5 +212,185 @@ func genVarLayers() {
 		l.str("dynamicCacheKeyDef", keyDef)
 		l.bool("dynamicCacheLocked", contains(src(h.Body), "c.muDynamicCache.Lock()") && contains(src(h.Body), "defer c.muDynamicCache.Unlock()"))
 	}
+	// getSpecialVars: which special variables exist and what each is computed from (the model's `Vars.special`);
+	// receiver / parameter names are replaced by their types
+	var specials [][2]string
+	if g := root.funcDecl("Compiler.getSpecialVars"); g != nil {
+		ty := map[string]string{}
+		if g.Recv != nil {
+			for _, f := range g.Recv.List {
+				for _, n := range f.Names {
+					ty[n.Name] = strings.TrimPrefix(src(f.Type), "*")
+				}
+			}
+		}
+		for _, f := range g.Type.Params.List {
+			for _, n := range f.Names {
+				ty[n.Name] = strings.TrimPrefix(src(f.Type), "*")
+			}
+		}
+		var normExpr func(e ast.Expr) string
+		normExpr = func(e ast.Expr) string {
+			switch x := e.(type) {
+			case *ast.Ident:
+				if t, ok := ty[x.Name]; ok {
+					return t
+				}
+				return x.Name
+			case *ast.SelectorExpr:
+				return normExpr(x.X) + "." + x.Sel.Name
+			case *ast.CallExpr:
+				var as []string
+				for _, a := range x.Args {
+					as = append(as, normExpr(a))
+				}
+				return normExpr(x.Fun) + "(" + strings.Join(as, ", ") + ")"
+			case *ast.IndexExpr:
+				return normExpr(x.X) + "[" + normExpr(x.Index) + "]"
+			}
+			return src(e)
+		}
+		mapVar := ""
+		var walk func(stmts []ast.Stmt, guard string)
+		walk = func(stmts []ast.Stmt, guard string) {
+			for _, st := range stmts {
+				switch x := st.(type) {
+				case *ast.AssignStmt:
+					if len(x.Lhs) != 1 || len(x.Rhs) != 1 {
+						continue
+					}
+					if cl, ok := x.Rhs[0].(*ast.CompositeLit); ok && strings.HasPrefix(src(cl.Type), "map[string]") {
+						mapVar = src(x.Lhs[0])
+						for _, el := range cl.Elts {
+							if kv, ok := el.(*ast.KeyValueExpr); ok {
+								specials = append(specials, [2]string{strings.Trim(src(kv.Key), "\""), normExpr(kv.Value)})
+							}
+						}
+					}
+					if ix, ok := x.Lhs[0].(*ast.IndexExpr); ok && src(ix.X) == mapVar && guard != "" {
+						v := normExpr(x.Rhs[0])
+						if v != "\"\"" { // the else branches (no task / no call) set the empty string
+							specials = append(specials, [2]string{strings.Trim(src(ix.Index), "\""), v})
+						}
+					}
+				case *ast.IfStmt:
+					walk(x.Body.List, normExpr(x.Cond))
+					if eb, ok := x.Else.(*ast.BlockStmt); ok {
+						walk(eb.List, "else")
+					}
+				}
+			}
+		}
+		walk(g.Body.List, "")
+	}
+	sortPairs(specials)
+	l.pairList("specialVars", specials)
+
+	// compiledTask: the POST layer (`vars.Set(<KIND>, ast.Var{Live: value})`) and whether it comes after the variables were resolved
+	post, postAfter := "", false
+	if ct := root.funcDecl("Executor.compiledTask"); ct != nil {
+		getPos, setPos := 0, 0
+		ast.Inspect(ct, func(n ast.Node) bool {
+			ce, ok := n.(*ast.CallExpr)
+			if !ok {
+				return true
+			}
+			if strings.HasSuffix(src(ce.Fun), ".Compiler.GetVariables") && getPos == 0 {
+				getPos = int(ce.Pos())
+			}
+			if src(ce.Fun) == "vars.Set" && len(ce.Args) == 2 && contains(src(ce.Args[1]), "Live:") {
+				post = src(ce.Args[0])
+				// the checker is a local: print the shape only
+				if up, ok := ce.Args[0].(*ast.CallExpr); ok && src(up.Fun) == "strings.ToUpper" && len(up.Args) == 1 {
+					if k, ok := up.Args[0].(*ast.CallExpr); ok {
+						if sel, ok := k.Fun.(*ast.SelectorExpr); ok {
+							post = "strings.ToUpper(‹checker›." + sel.Sel.Name + "())"
+						}
+					}
+				}
+				setPos = int(ce.Pos())
+			}
+			return true
+		})
+		postAfter = getPos > 0 && setPos > getPos
+	}
+	l.str("postLayerKey", post)
+	l.bool("postLayerAfterLayers", postAfter)
+
+	// GetTask: MATCH is bound in the call's variables when the task was found by name / wildcard, not on the alias path
+	matchSet := ""
+	if gt := root.funcDecl("Executor.GetTask"); gt != nil {
+		seenAliases := false
+		for _, st := range gt.Body.List {
+			if contains(src(st), ".Aliases") {
+				seenAliases = true
+			}
+			is, ok := st.(*ast.IfStmt)
+			if !ok {
+				continue
+			}
+			ast.Inspect(is.Body, func(n ast.Node) bool {
+				if ce, ok := n.(*ast.CallExpr); ok && strings.HasSuffix(src(ce.Fun), ".Vars.Set") && len(ce.Args) == 2 && src(ce.Args[0]) == "\"MATCH\"" {
+					matchSet = "name-or-wildcard-match"
+					if seenAliases {
+						matchSet = "also-on-alias-path"
+					}
+					if len(is.Body.List) == 0 || !strings.HasPrefix(src(is.Body.List[len(is.Body.List)-1]), "return") {
+						matchSet += ":falls-through"
+					}
+				}
+				return true
+			})
+		}
+	}
+	l.str("matchBoundWhen", matchSet)
+
+	// cmd/task: the command-line layer — which names are set on the map of NAME=value assignments, and how it reaches the globals
+	var cli []string
+	if run := loadDir("cmd/task").funcDecl("run"); run != nil {
+		ast.Inspect(run, func(n ast.Node) bool {
+			ce, ok := n.(*ast.CallExpr)
+			if !ok {
+				return true
+			}
+			f := src(ce.Fun)
+			if f == "globals.Set" && len(ce.Args) == 2 {
+				cli = append(cli, "set:"+strings.Trim(src(ce.Args[0]), "\""))
+			}
+			if strings.HasSuffix(f, ".Merge") && len(ce.Args) >= 1 && src(ce.Args[0]) == "globals" {
+				tgt := strings.TrimSuffix(f, ".Merge")
+				if i := strings.Index(tgt, "."); i > 0 {
+					tgt = "‹executor›" + tgt[i:] // the executor is a local of run()
+				}
+				cli = append(cli, "merge-into:"+tgt)
+			}
+			return true
+		})
+	}
+	l.strList("cliLayer", cli)
+
+	// Vars.Merge: every entry of the other map is `Set` into the ordered map (an existing key keeps its position)
+	mergeSet := false
+	if vm := loadDir("taskfile/ast").funcDecl("Vars.Merge"); vm != nil {
+		mergeSet = contains(src(vm.Body), "vars.om.Set(pair.Key, value)") && contains(src(vm.Body), "other.om.Front()")
+	}
+	l.bool("mergeSetsInOrder", mergeSet)
 	l.write()
+}
+
+// norm2: every `<ident>.` whose identifier is a receiver / parameter is replaced by its type
+func norm2(body string, tyOf map[string]string) string {
+	for n, t := range tyOf {
+		body = strings.ReplaceAll(body, "("+n+".", "("+t+".")
+		body = strings.ReplaceAll(body, " "+n+".", " "+t+".")
+	}
+	return body
+}
+
+func sortPairs(ps [][2]string) {
+	for i := 1; i < len(ps); i++ {
+		for j := i; j > 0 && ps[j][0] < ps[j-1][0]; j-- {
+			ps[j], ps[j-1] = ps[j-1], ps[j]
+		}
+	}
 }
